@@ -112,6 +112,8 @@ impl ConnectionManager {
         // more smeared out over time to avoid spiky load / thundering herd issues where all dial
         // requests happen around the same time.
         let jitter = std::time::Duration::from_millis(1_000).mul_f64(rand::random::<f64>());
+        #[cfg(bmwill_anemo_verif)]
+        let jitter = crate::verif::jitter_override().unwrap_or(jitter);
         let mut interval =
             tokio::time::interval(self.config.connectivity_check_interval() + jitter);
 
@@ -143,6 +145,8 @@ impl ConnectionManager {
                     }
                 }
                 connecting = self.endpoint.accept() => {
+                    #[cfg(bmwill_anemo_verif)]
+                    crate::verif::note_accept(connecting.is_some());
                     if let Some(connecting) = connecting {
                         self.handle_incoming(connecting);
                     }
